@@ -489,7 +489,8 @@ func (w *world) await(pid string, gate bool, wantStopped int, sync int, what str
 		probes++
 		w.probeSeq++
 		probeN = 1000000 + w.probeSeq
-		w.e.Send(w.pid, SyncMsg{N: probeN})
+		// (an equal PID in a fresh object, like the follow-up sentinel below)
+		w.e.Send(&actor.PID{Address: w.pid.Address, ID: w.pid.ID}, SyncMsg{N: probeN})
 	}
 	if waitDeath && !gate && sync == 0 {
 		sendProbe()
@@ -541,7 +542,9 @@ func (w *world) await(pid string, gate bool, wantStopped int, sync int, what str
 			if sync != 0 || gate {
 				w.probeSeq++
 				follow = 2000000 + w.probeSeq
-				w.e.Send(w.pid, SyncMsg{N: follow})
+				// through an equal PID held in ANOTHER object: it names the same actor, so the order of the
+				// two sends holds - whatever the engine remembers about the object used so far
+				w.e.Send(&actor.PID{Address: w.pid.Address, ID: w.pid.ID}, SyncMsg{N: follow})
 			}
 		case <-deadline:
 			return fmt.Errorf("%w: %s", ErrInconclusive, what)
